@@ -8,13 +8,13 @@ import RdsProofs.Inv
 -/
 namespace RDS
 
-theorem World.get_set_ne (w : World) (c i : Nat) (x : Option State) (hi : i ≠ c) :
+theorem c19_World_get_set_ne (w : World) (c i : Nat) (x : Option State) (hi : i ≠ c) :
     (World.get { w with slots := w.slots.set c x } i) = w.get i := by
   simp only [World.get, List.getD_eq_getElem?_getD, List.getElem?_set]
   have : ¬ c = i := fun e => hi e.symm
   simp [this]
 
-theorem World.get_set_self (w : World) (c : Nat) (x : Option State) (hc : c < w.slots.length) :
+theorem c19_World_get_set_self (w : World) (c : Nat) (x : Option State) (hc : c < w.slots.length) :
     (World.get { w with slots := w.slots.set c x } c) = x := by
   simp only [World.get, List.getD_eq_getElem?_getD, List.getElem?_set]
   simp [hc]
@@ -24,15 +24,15 @@ theorem C19_other_slots (cfg : Cfg) (w : World) (m : MOp) (i : Nat) (hi : i ≠ 
     (mstep cfg w m).1.get i = w.get i := by
   cases m with
   | select j => rfl
-  | create => exact World.get_set_ne w w.cur i _ hi
-  | destroy => exact World.get_set_ne w w.cur i _ hi
+  | create => exact c19_World_get_set_ne w w.cur i _ hi
+  | destroy => exact c19_World_get_set_ne w w.cur i _ hi
   | mallocFail => rfl
   | freeNull => rfl
   | op o =>
     simp only [mstep]
     split
     · rfl
-    · exact World.get_set_ne w w.cur i _ hi
+    · exact c19_World_get_set_ne w w.cur i _ hi
 
 /-- `select` changes no slot at all -/
 theorem C19_select (cfg : Cfg) (w : World) (j i : Nat) : (mstep cfg w (.select j)).1.get i = w.get i := rfl
@@ -46,7 +46,7 @@ theorem C19_cur (cfg : Cfg) (w : World) (o : Op) (s : State) (h : w.get w.cur = 
       ({ w with slots := w.slots.set w.cur (some (step cfg s o).1) }, (step cfg s o).2.1, (step cfg s o).2.2) := by
     simp only [mstep, h]
   rw [hm]
-  exact ⟨World.get_set_self w w.cur _ (by omega), rfl⟩
+  exact ⟨c19_World_get_set_self w w.cur _ (by omega), rfl⟩
 
 /-- determinism: the model is a function (stated for the record) -/
 theorem C19_deterministic (cfg : Cfg) (ops : List Op) : run cfg ops = run cfg ops := rfl
@@ -62,7 +62,7 @@ def soloOf (i : Nat) : Nat → List MOp → List MOp
 
 def mrun (cfg : Cfg) (w : World) (ms : List MOp) : World := ms.foldl (fun w m => (mstep cfg w m).1) w
 
-theorem mstep_slots_length (cfg : Cfg) (w : World) (m : MOp) :
+theorem c19_mstep_slots_length (cfg : Cfg) (w : World) (m : MOp) :
     (mstep cfg w m).1.slots.length = w.slots.length := by
   cases m with
   | select j => rfl
@@ -76,7 +76,7 @@ theorem mstep_slots_length (cfg : Cfg) (w : World) (m : MOp) :
     · rfl
     · simp
 
-theorem mstep_cur_lt (cfg : Cfg) (w : World) (m : MOp) (hcur : w.cur < numSlots) :
+theorem c19_mstep_cur_lt (cfg : Cfg) (w : World) (m : MOp) (hcur : w.cur < numSlots) :
     (mstep cfg w m).1.cur < numSlots := by
   cases m with
   | select j => exact Nat.mod_lt _ (by decide)
@@ -89,7 +89,7 @@ theorem mstep_cur_lt (cfg : Cfg) (w : World) (m : MOp) (hcur : w.cur < numSlots)
     split <;> exact hcur
 
 /-- a non-select op keeps the current slot -/
-theorem mstep_cur_eq (cfg : Cfg) (w : World) (m : MOp) (hm : ∀ j, m ≠ .select j) :
+theorem c19_mstep_cur_eq (cfg : Cfg) (w : World) (m : MOp) (hm : ∀ j, m ≠ .select j) :
     (mstep cfg w m).1.cur = w.cur := by
   cases m with
   | select j => exact absurd rfl (hm j)
@@ -102,7 +102,7 @@ theorem mstep_cur_eq (cfg : Cfg) (w : World) (m : MOp) (hm : ∀ j, m ≠ .selec
     split <;> rfl
 
 /-- the effect of an op on the current slot depends only on that slot's content -/
-theorem mstep_get_cur_congr (cfg : Cfg) (w w' : World) (m : MOp)
+theorem c19_mstep_get_cur_congr (cfg : Cfg) (w w' : World) (m : MOp)
     (hl : w.slots.length = numSlots) (hl' : w'.slots.length = numSlots)
     (hc : w.cur = w'.cur) (hcur : w.cur < numSlots) (hg : w.get w.cur = w'.get w.cur) :
     (mstep cfg w m).1.get w.cur = (mstep cfg w' m).1.get w.cur := by
@@ -111,10 +111,10 @@ theorem mstep_get_cur_congr (cfg : Cfg) (w w' : World) (m : MOp)
   | select j => exact hg
   | create =>
     simp only [mstep]
-    rw [World.get_set_self w w.cur _ (by omega), hc, World.get_set_self w' w'.cur _ (by omega)]
+    rw [c19_World_get_set_self w w.cur _ (by omega), hc, c19_World_get_set_self w' w'.cur _ (by omega)]
   | destroy =>
     simp only [mstep]
-    rw [World.get_set_self w w.cur _ (by omega), hc, World.get_set_self w' w'.cur _ (by omega)]
+    rw [c19_World_get_set_self w w.cur _ (by omega), hc, c19_World_get_set_self w' w'.cur _ (by omega)]
   | mallocFail => exact hg
   | freeNull => exact hg
   | op o =>
@@ -124,10 +124,10 @@ theorem mstep_get_cur_congr (cfg : Cfg) (w w' : World) (m : MOp)
     | none => simp only; rw [← hg, hs]
     | some s =>
       simp only
-      rw [World.get_set_self w w.cur _ (by omega), hc, World.get_set_self w' w'.cur _ (by omega)]
+      rw [c19_World_get_set_self w w.cur _ (by omega), hc, c19_World_get_set_self w' w'.cur _ (by omega)]
 
 /-- generalised isolation: two worlds that agree on slot `i`, the second one having `i` selected -/
-theorem isolation_aux (cfg : Cfg) (i : Nat) (_hi : i < numSlots) (ms : List MOp) :
+theorem c19_isolation_aux (cfg : Cfg) (i : Nat) (_hi : i < numSlots) (ms : List MOp) :
     ∀ (w w' : World), w.slots.length = numSlots → w'.slots.length = numSlots →
       w.cur < numSlots → w'.cur = i → w.get i = w'.get i →
       (mrun cfg w ms).get i = (mrun cfg w' (soloOf i w.cur ms)).get i := by
@@ -150,14 +150,14 @@ theorem isolation_aux (cfg : Cfg) (i : Nat) (_hi : i < numSlots) (ms : List MOp)
         | freeNull => rfl
         | op o => rfl
       rw [hso]
-      have hcur1 : (mstep cfg w m).1.cur = w.cur := mstep_cur_eq cfg w m hm
-      have hl1 : (mstep cfg w m).1.slots.length = numSlots := mstep_slots_length cfg w m ▸ hl
+      have hcur1 : (mstep cfg w m).1.cur = w.cur := c19_mstep_cur_eq cfg w m hm
+      have hl1 : (mstep cfg w m).1.slots.length = numSlots := c19_mstep_slots_length cfg w m ▸ hl
       by_cases hci : w.cur = i
       · simp only [hci, if_true, mrun, List.foldl_cons]
-        have hl1' : (mstep cfg w' m).1.slots.length = numSlots := mstep_slots_length cfg w' m ▸ hl'
-        have hcur1' : (mstep cfg w' m).1.cur = i := (mstep_cur_eq cfg w' m hm).trans hc'
+        have hl1' : (mstep cfg w' m).1.slots.length = numSlots := c19_mstep_slots_length cfg w' m ▸ hl'
+        have hcur1' : (mstep cfg w' m).1.cur = i := (c19_mstep_cur_eq cfg w' m hm).trans hc'
         have hg1 : (mstep cfg w m).1.get i = (mstep cfg w' m).1.get i := by
-          have := mstep_get_cur_congr cfg w w' m hl hl' (hci.trans hc'.symm) hcur (hci ▸ hg)
+          have := c19_mstep_get_cur_congr cfg w w' m hl hl' (hci.trans hc'.symm) hcur (hci ▸ hg)
           rw [hci] at this
           exact this
         have := ih (mstep cfg w m).1 (mstep cfg w' m).1 hl1 hl1' (hcur1 ▸ hcur) hcur1' hg1
@@ -174,7 +174,7 @@ theorem isolation_aux (cfg : Cfg) (i : Nat) (_hi : i < numSlots) (ms : List MOp)
 theorem C19_isolation (cfg : Cfg) (w : World) (ms : List MOp) (i : Nat) (hi : i < numSlots)
     (hlen : w.slots.length = numSlots) (hcur : w.cur < numSlots) :
     (mrun cfg w ms).get i = (mrun cfg { w with cur := i } (soloOf i w.cur ms)).get i :=
-  isolation_aux cfg i hi ms w { w with cur := i } hlen hlen hcur rfl rfl
+  c19_isolation_aux cfg i hi ms w { w with cur := i } hlen hlen hcur rfl rfl
 
 #print axioms C19_other_slots
 #print axioms C19_select
